@@ -128,6 +128,26 @@ MINE = {
  "C18-f": ("caught as built", ""),
  "C19-f": ("missed by C19 (caught by C06's structural rule cases)", "C19 judges the required list of every plain component schema of the structural service"),
  "C20-f": ("missed", "the decoy twin carries other examples on the same message and field names under the same Go package name"),
+ "C01-g": ("caught as built", ""),
+ "C02-g": ("missed by C02 (the TS client's URL building is C08's subject; caught by C08's replace-pattern strings)", ""),
+ "C03-g": ("missed", "C08 drives the TS client over the placement catalogue (every kind and cardinality incl. optional/repeated/enum in path and query, explicit json_name) against a go-http-only server; found three genuine TS-client defects on the way (recorded)"),
+ "C04-g": ("caught as built", ""),
+ "C05-g": ("caught as built", ""),
+ "C06-g": ("missed by C06 (caught by C18)", "C06 validates every body against the document of a SECOND service declared in the same file as well; an unresolvable reference in an operation's schema is a verdict instead of an inconclusive validator error"),
+ "C07-g": ("missed", "explicit json_name: in the IR, in the feature corpus (plain keys and next to int64/nullable/timestamp/bytes codecs) and on URL-bound fields of the placement catalogue (C01, C02, C07, C08)"),
+ "C08-g": ("missed by C08 (caught by C09's multi-method cases with three service headers)", ""),
+ "C09-g": ("caught as built", ""),
+ "C10-g": ("missed", "TS handlers throw errors of foreign classes that are merely named ValidationError / ApiError, and a TypeError: they are handler failures (500 or the onError hook)"),
+ "C11-g": ("missed", "client robustness under long vendor content types, +json suffixes, many parameters, upper case, degenerate types, with bodies that are and are not JSON (a hang of the node bridge is a verdict)"),
+ "C12-g": ("missed", "every value of timestamp_format / bytes_encoding / empty_behavior on a wrong field type, including the value that spells the default out"),
+ "C13-g": ("caught as built", ""),
+ "C14-g": ("caught as built", ""),
+ "C15-g": ("missed", "corpus entry headers/case-variants: header names that differ only in letter case within and across the service and method level"),
+ "C16-g": ("missed", "message names that coincide with names the generators use themselves (Error, ValidationError, FieldViolation, ApiError, Timestamp, Empty, Response, Promise, <Msg>_<variant> ...), top-level and nested, as RPC types and as field types"),
+ "C17-g": ("missed", "C17's schema puts one request message under path-variable sets of different size and order (AlphaMove); the shared-request corpus gained ItemRef under three different variable sets (C01)"),
+ "C18-g": ("caught as built", ""),
+ "C19-g": ("missed", "float bounds, const and in values without an exact binary representation; found and repaired a genuine defect on the way (7dd3c12)"),
+ "C20-g": ("missed by C20 (caught by C19)", "mock case with NUMBER-encoded int64 fields that carry in/const rules and examples inside the set"),
 }
 
 
